@@ -22,6 +22,9 @@ import (
 
 	"verifharness/internal/child"
 	"verifharness/internal/cli"
+	"verifharness/internal/refs"
+	"verifharness/internal/refserver"
+	"verifharness/internal/syncx"
 	"verifharness/internal/tbl"
 )
 
@@ -215,6 +218,9 @@ func csvRows(rng *rand.Rand, n int, salt string) []byte {
 
 // prepare builds the repository an operation starts from and returns the command to run.
 func prepare(r *cli.Repo, sc *Scenario) (args []string, strict []string, err error) {
+	if sc.Kind == "fetch" || sc.Kind == "pull" {
+		return prepareRemote(r, sc)
+	}
 	rng := rand.New(rand.NewSource(sc.Seed*131 + int64(sc.Idx)))
 	n := sc.Rows
 	if n == 0 {
@@ -280,6 +286,60 @@ func prepare(r *cli.Repo, sc *Scenario) (args []string, strict []string, err err
 		return []string{sc.Kind}, nil, nil
 	}
 	return nil, nil, fmt.Errorf("unknown kind %q", sc.Kind)
+}
+
+// servers started for fetch / pull scenarios; closed when the scenario ends
+var openServers []*refserver.Server
+
+// prepareRemote builds a reference server holding main = 1 <- 2 <- 3 (+ a tag) and a client that
+// has commit 1 on its own main, then returns the fetch / pull command.
+func prepareRemote(r *cli.Repo, sc *Scenario) (args []string, strict []string, err error) {
+	par := map[int][]int{1: {}, 2: {1}, 3: {2}}
+	rows := sc.Rows
+	if rows == 0 {
+		rows = 300
+	}
+	u, err := syncx.BuildUniverse(par, rows)
+	if err != nil {
+		return nil, nil, err
+	}
+	sdb := tbl.NewSafeStore()
+	srs, _, err := refs.NewMemStore()
+	if err != nil {
+		return nil, nil, err
+	}
+	for c := 1; c <= 3; c++ {
+		if err := u.Give(sdb, c, true); err != nil {
+			return nil, nil, err
+		}
+	}
+	if err := ref.SaveRef(srs, "heads/main", u.Sum[3], "s", "s@example.invalid", "setup", "setup", nil); err != nil {
+		return nil, nil, err
+	}
+	if err := srs.Set("tags/v1", u.Sum[2]); err != nil {
+		return nil, nil, err
+	}
+	srv := refserver.New(sdb, srs, 0)
+	openServers = append(openServers, srv)
+	cfg := fmt.Sprintf("user:\n  email: verif@example.invalid\n  name: Verif\nremote:\n  origin:\n    url: %s\n    fetch:\n      - +refs/heads/*:refs/remotes/origin/*\nbranch:\n  main:\n    remote: origin\n    merge: refs/heads/main\n", srv.URL())
+	if err := os.WriteFile(filepath.Join(r.WrglDir, "config.yaml"), []byte(cfg), 0644); err != nil {
+		return nil, nil, err
+	}
+	db, rs, closeFn, err := r.Open()
+	if err != nil {
+		return nil, nil, err
+	}
+	defer closeFn()
+	if err := u.Give(db, 1, true); err != nil {
+		return nil, nil, err
+	}
+	if err := ref.SaveRef(rs, "heads/main", u.Sum[1], "c", "c@example.invalid", "setup", "setup", nil); err != nil {
+		return nil, nil, err
+	}
+	if sc.Kind == "fetch" {
+		return []string{"fetch", "origin"}, nil, nil
+	}
+	return []string{"pull", "main"}, []string{"heads/main"}, nil
 }
 
 func kindOfKey(key []byte) (string, []byte) {
@@ -562,6 +622,12 @@ func Replay(i int, raw []byte) child.Result {
 		return child.Inconclusive(err)
 	}
 	args, strict, err := prepare(r, &sc)
+	defer func() {
+		for _, s := range openServers {
+			s.Close()
+		}
+		openServers = nil
+	}()
 	if err != nil {
 		return child.Inconclusive(err)
 	}
